@@ -255,6 +255,7 @@ fn do_sample(cx: &SimCtx, phase: &'static str) {
 
 #[cfg(feature = "f_metrics")]
 pub fn metrics_event(sh: &Shared, actor: usize, r: &ActorRef<SA>, via: &'static str) {
+    let pre = sh.log.len() as u64;
     let count = r.message_count();
     let avg = r.avg_processing_time();
     let max = r.max_processing_time();
@@ -262,6 +263,7 @@ pub fn metrics_event(sh: &Shared, actor: usize, r: &ActorRef<SA>, via: &'static 
     sh.log.push(K::Metrics {
         actor,
         via,
+        pre,
         count,
         avg_ns: avg.as_nanos() as u64,
         max_ns: max.as_nanos() as u64,
